@@ -79,11 +79,9 @@ theorem cache_invisible_to_number_arrivals (d : List Nat) (hwf : curveWF d) (h2 
   have e2 := xcurveN_eq d hwf h2 x m hx hm
   have w1 := iterExt_wf d hwf n
   have w2 := iterExt_wf d hwf m
-  have c1 := curveN_closed (iterExt d n) w1 0 x hn
-  have c2 := curveN_closed (iterExt d m) w2 0 x hm
-  simp only [Nat.zero_mul, Nat.zero_add] at c1 c2
-  have hx0 : x ≠ 0 := by omega
-  simp only [hx0, if_false] at c1 c2
+  rw [curveN_small _ w1 x hx hn, curveN_small _ w2 x hx hm]
+  have c1 := curveN_small _ w1 x hx hn
+  have c2 := curveN_small _ w2 x hx hm
   omega
 
 /-- invisible as a cache: ANY interleaving of `number_arrivals` and `steps_iter`/`next`
